@@ -59,7 +59,7 @@ func main() {
 	}
 	res := vlib.New("e1:" + fl.Sub)
 	r := &runner{logDir: filepath.Join(fl.Work, "logs"), horizon: 20000, states: map[uint64]struct{}{}}
-	budget := 1500
+	budget := 2400
 	if !fl.Thorough() {
 		budget = 900
 	}
@@ -80,9 +80,16 @@ func main() {
 		confEvery = 40
 	}
 	var jobs []job
+	seenJob := map[string]bool{}
 	add := func(cfg *Config, bound int, maxExec int64, oracles ...string) {
 		c := *cfg
 		c.Bound = bound
+		// the thorough tier generates the quick tier's jobs first (see below): a job both tiers contain is kept once
+		if k := c.Key(); seenJob[k] {
+			return
+		} else {
+			seenJob[k] = true
+		}
 		j := job{cfg: &c, maxExec: maxExec, big: bound > 0 || c.Agent}
 		// conformance: every 40th small program of a family and the buffered variants of the sharp list
 		if !c.Agent && !c.Stop && c.Recorded == nil && c.TimeoutMs == 0 && !c.DoneSync && !c.DoneNil && (bound == 0 && len(jobs)%confEvery == 7) {
@@ -99,133 +106,141 @@ func main() {
 		programs(o, func(c *Config) { add(c, 0, 2000000, oracles...) })
 	}
 	sub := fl.Sub
-	thorough := fl.Thorough()
-	switch sub {
-	case "C01", "C02", "C03":
-		family(famOpts{n: 1, scripts: scriptsFull, maxActive: []int{0, 1}, delays: []int{0, 1000}, intervalMs: 1000, coAll: true}, sub)
-		family(famOpts{n: 2, scripts: scriptsFull, maxActive: []int{0, 1, 2}, delays: []int{0, 1000}, intervalMs: 1000, coAll: true}, sub)
-		if thorough {
-			family(famOpts{n: 3, scripts: scriptsFull, maxActive: []int{0, 1, 2}, delays: []int{0}, intervalMs: 1000, coAll: false}, sub)
-			family(famOpts{n: 3, scripts: scriptsReduced, maxActive: []int{0}, delays: []int{1000}, intervalMs: 0, coAll: true}, sub)
-			family(famOpts{n: 4, scripts: scriptsReduced[:3], maxActive: []int{0, 1}, delays: []int{0}, intervalMs: 0, coAll: false}, sub)
-		} else {
-			family(famOpts{n: 3, scripts: scriptsReduced, maxActive: []int{0, 1}, delays: []int{0}, intervalMs: 1000, coAll: false, maxRetry: 1}, sub)
-		}
-		pb := 1
-		var capPB int64 = 2000000
-		if thorough {
-			capPB = 0
-		}
-		famDesc = append(famDesc, durFamily(thorough, add, sub, []int{0, 1}))
-		// retry matrix (the property's own quantifier): every limit 0..L and "fail the first k attempts"
-		// with k below, at and above the limit (and always), alone and with a dependent; PB(0) with both
-		// intervals, PB(1) without an interval in the three done arrangements
-		maxL := 3
-		if thorough {
-			maxL = 4
-		}
-		famDesc = append(famDesc, fmt.Sprintf("retry matrix: limit 0..%d x fail-first-k (k = 0..limit+2, always) x {alone, with a dependent, with a dependent and continueOn.failure} x interval {0,1s}: PB(0); PB(1) for interval 0 in the three done arrangements", maxL))
-		for L := 0; L <= maxL; L++ {
-			for _, k := range append(seq(0, L+2), -1) {
-				for _, iv := range []int{0, 1000} {
-					a := retrying(st("a"), k, L, iv)
-					ac := a
-					ac.CoF = true
-					for _, steps := range [][]StepCfg{{a}, {a, st("b", "a")}, {ac, st("b", "a")}} {
-						c := &Config{Steps: steps}
-						add(c, 0, 2000000, sub)
-						if iv == 0 && (thorough || (k >= L && k <= L+1 && L >= 1 && L <= 2)) {
-							add(c, 1, capPB, sub)
-							cs := *c
-							cs.DoneSync, cs.OutBytes = true, 10
-							add(&cs, 1, capPB, sub)
-							cn := *c
-							cn.DoneNil, cn.OutBytes = true, 10
-							add(&cn, 1, capPB, sub)
+	// The thorough tier first does everything the quick tier does, then its wider families: whatever the time
+	// budget cuts off at the end is then the widest part, never something the quick tier covers.
+	tiers := []bool{fl.Thorough()}
+	if fl.Thorough() {
+		tiers = []bool{false, true}
+	}
+	for _, thorough := range tiers {
+		switch sub {
+		case "C01", "C02", "C03":
+			family(famOpts{n: 1, scripts: scriptsFull, maxActive: []int{0, 1}, delays: []int{0, 1000}, intervalMs: 1000, coAll: true}, sub)
+			family(famOpts{n: 2, scripts: scriptsFull, maxActive: []int{0, 1, 2}, delays: []int{0, 1000}, intervalMs: 1000, coAll: true}, sub)
+			if thorough {
+				family(famOpts{n: 3, scripts: scriptsFull, maxActive: []int{0, 1, 2}, delays: []int{0}, intervalMs: 1000, coAll: false}, sub)
+				family(famOpts{n: 3, scripts: scriptsReduced, maxActive: []int{0}, delays: []int{1000}, intervalMs: 0, coAll: true}, sub)
+				family(famOpts{n: 4, scripts: scriptsReduced[:3], maxActive: []int{0, 1}, delays: []int{0}, intervalMs: 0, coAll: false}, sub)
+			} else {
+				family(famOpts{n: 3, scripts: scriptsReduced, maxActive: []int{0, 1}, delays: []int{0}, intervalMs: 1000, coAll: false, maxRetry: 1}, sub)
+			}
+			pb := 1
+			var capPB int64 = 2000000
+			if thorough {
+				capPB = 0
+			}
+			famDesc = append(famDesc, durFamily(thorough, add, sub, []int{0, 1}))
+			// retry matrix (the property's own quantifier): every limit 0..L and "fail the first k attempts"
+			// with k below, at and above the limit (and always), alone and with a dependent; PB(0) with both
+			// intervals, PB(1) without an interval in the three done arrangements
+			maxL := 3
+			if thorough {
+				maxL = 4
+			}
+			famDesc = append(famDesc, fmt.Sprintf("retry matrix: limit 0..%d x fail-first-k (k = 0..limit+2, always) x {alone, with a dependent, with a dependent and continueOn.failure} x interval {0,1s}: PB(0); PB(1) for interval 0 in the three done arrangements", maxL))
+			for L := 0; L <= maxL; L++ {
+				for _, k := range append(seq(0, L+2), -1) {
+					for _, iv := range []int{0, 1000} {
+						a := retrying(st("a"), k, L, iv)
+						ac := a
+						ac.CoF = true
+						for _, steps := range [][]StepCfg{{a}, {a, st("b", "a")}, {ac, st("b", "a")}} {
+							c := &Config{Steps: steps}
+							add(c, 0, 2000000, sub)
+							if iv == 0 && (thorough || (k >= L && k <= L+1 && L >= 1 && L <= 2)) {
+								add(c, 1, capPB, sub)
+								cs := *c
+								cs.DoneSync, cs.OutBytes = true, 10
+								add(&cs, 1, capPB, sub)
+								cn := *c
+								cn.DoneNil, cn.OutBytes = true, 10
+								add(&cn, 1, capPB, sub)
+							}
 						}
 					}
 				}
 			}
-		}
-		for i, c := range sharp() {
-			// the agent's arrangement: unbuffered done channel consumed by a status-writer thread; steps print
-			cs := *c
-			cs.DoneSync, cs.OutBytes = true, 10
-			if thorough || i < 4 {
-				add(&cs, pb, capPB, sub)
+			for i, c := range sharp() {
+				// the agent's arrangement: unbuffered done channel consumed by a status-writer thread; steps print
+				cs := *c
+				cs.DoneSync, cs.OutBytes = true, 10
+				if thorough || i < 4 {
+					add(&cs, pb, capPB, sub)
+				}
+				// buffered done channel, silent steps
+				add(c, pb, capPB, sub)
+				if thorough && i < 6 {
+					add(&cs, 2, 3000000, sub)
+				}
+				// the public API form Schedule(ctx, g, nil), as the repository's own tests call it
+				cn := *c
+				cn.DoneNil, cn.OutBytes = true, 10
+				if thorough || i < 4 {
+					add(&cn, pb, capPB, sub)
+				}
 			}
-			// buffered done channel, silent steps
-			add(c, pb, capPB, sub)
-			if thorough && i < 6 {
-				add(&cs, 2, 3000000, sub)
-			}
-			// the public API form Schedule(ctx, g, nil), as the repository's own tests call it
-			cn := *c
-			cn.DoneNil, cn.OutBytes = true, 10
-			if thorough || i < 4 {
-				add(&cn, pb, capPB, sub)
-			}
-		}
-		res.Bounds["preemption_bound_sharp_list"] = map[bool]int{false: 1, true: 2}[thorough]
-		res.Bounds["np_complete_n_le"] = 3
-	case "C15":
-		c15family(thorough, add)
-		famDesc = append(famDesc, durFamily(thorough, add, sub, []int{1, 2}))
-		// the limit next to failure containment, skips and arbitrary dependency shapes (a step that is
-		// refused or canceled must not hold a slot): the general program family under every limit
-		family(famOpts{n: 2, scripts: scriptsFull, maxActive: []int{1, 2}, delays: []int{0}, intervalMs: 1000, coAll: true}, sub)
-		if thorough {
-			family(famOpts{n: 3, scripts: scriptsReduced, maxActive: []int{1, 2, 3}, delays: []int{0}, intervalMs: 1000, coAll: false}, sub)
-			family(famOpts{n: 4, scripts: scriptsReduced[:3], maxActive: []int{1, 2, 3}, delays: []int{0}, intervalMs: 0, coAll: false}, sub)
-		} else {
-			family(famOpts{n: 3, scripts: scriptsReduced, maxActive: []int{1, 2}, delays: []int{0}, intervalMs: 1000, coAll: false, maxRetry: 1}, sub)
-		}
-		famDesc = append(famDesc, "w in 1..3 parallel steps (+ join), maxActiveRuns 0..w+1, per-step scripts {ok, fail1-retry1(interval 1s), fail}")
-	case "C04":
-		c04family(thorough, add)
-		famDesc = append(famDesc, "programs on <=2 steps (3 thorough) x outcome scripts x every subset of {onSuccess,onFailure,onCancel,onExit} scripted ok/fail x {no stop, stop at every explored instant}")
-	case "C08":
-		// agent-level programs observed at every decision: all programs on <= 2 steps (3 thorough) over the script alphabet
-		maxN := 2
-		if thorough {
-			maxN = 3
-		}
-		for n := 1; n <= maxN; n++ {
-			sc := scriptsFull
-			if n == 3 {
-				sc = scriptsReduced
-			}
-			ma := []int{0}
+			res.Bounds["preemption_bound_sharp_list"] = map[bool]int{false: 1, true: 2}[thorough]
+			res.Bounds["np_complete_n_le"] = 3
+		case "C15":
+			c15family(thorough, add)
+			famDesc = append(famDesc, durFamily(thorough, add, sub, []int{1, 2}))
+			// the limit next to failure containment, skips and arbitrary dependency shapes (a step that is
+			// refused or canceled must not hold a slot): the general program family under every limit
+			family(famOpts{n: 2, scripts: scriptsFull, maxActive: []int{1, 2}, delays: []int{0}, intervalMs: 1000, coAll: true}, sub)
 			if thorough {
-				ma = []int{0, 1}
+				family(famOpts{n: 3, scripts: scriptsReduced, maxActive: []int{1, 2, 3}, delays: []int{0}, intervalMs: 1000, coAll: false}, sub)
+				family(famOpts{n: 4, scripts: scriptsReduced[:3], maxActive: []int{1, 2, 3}, delays: []int{0}, intervalMs: 0, coAll: false}, sub)
+			} else {
+				family(famOpts{n: 3, scripts: scriptsReduced, maxActive: []int{1, 2}, delays: []int{0}, intervalMs: 1000, coAll: false, maxRetry: 1}, sub)
 			}
-			programs(famOpts{n: n, scripts: sc, maxActive: ma, delays: []int{0}, intervalMs: 1000, coAll: false, maxRetry: 1}, func(c *Config) {
+			famDesc = append(famDesc, "w in 1..3 parallel steps (+ join), maxActiveRuns 0..w+1, per-step scripts {ok, fail1-retry1(interval 1s), fail}")
+		case "C04":
+			c04family(thorough, add)
+			famDesc = append(famDesc, "programs on <=2 steps (3 thorough) x outcome scripts x every subset of {onSuccess,onFailure,onCancel,onExit} scripted ok/fail x {no stop, stop at every explored instant}")
+		case "C08":
+			// agent-level programs observed at every decision: all programs on <= 2 steps (3 thorough) over the script alphabet
+			maxN := 2
+			if thorough {
+				maxN = 3
+			}
+			for n := 1; n <= maxN; n++ {
+				sc := scriptsFull
+				if n == 3 {
+					sc = scriptsReduced
+				}
+				ma := []int{0}
+				if thorough {
+					ma = []int{0, 1}
+				}
+				programs(famOpts{n: n, scripts: sc, maxActive: ma, delays: []int{0}, intervalMs: 1000, coAll: false, maxRetry: 1}, func(c *Config) {
+					cc := *c
+					cc.Agent, cc.Observe, cc.CleanupMs = true, true, 10000
+					cc.Handlers = map[string]string{"onExit": "ok", "onFailure": "ok"}
+					add(&cc, 0, 300000, "C08")
+				})
+			}
+			for i, c := range sharp() {
+				if i > 1 && !thorough {
+					break
+				}
 				cc := *c
-				cc.Agent, cc.Observe, cc.CleanupMs = true, true, 10000
-				cc.Handlers = map[string]string{"onExit": "ok", "onFailure": "ok"}
-				add(&cc, 0, 300000, "C08")
-			})
-		}
-		for i, c := range sharp() {
-			if i > 1 && !thorough {
-				break
+				cc.Agent, cc.Observe, cc.CleanupMs, cc.DoneSync, cc.OutBytes = true, true, 10000, true, 10
+				add(&cc, 1, 1000000, "C08")
 			}
-			cc := *c
-			cc.Agent, cc.Observe, cc.CleanupMs, cc.DoneSync, cc.OutBytes = true, true, 10000, true, 10
-			add(&cc, 1, 1000000, "C08")
+			famDesc = append(famDesc, "agent-level (real agent.Agent, Agent.Status() called at every scheduling decision and after the run): all programs on <=2 steps (3 thorough) x scripts x maxActiveRuns {0,1}, PB(0); PB(1) on the sharp list with the agent's channel arrangement")
+		case "C05":
+			c05family(thorough, add)
+			famDesc = append(famDesc, "agent-level: {single step, chain of 2, two parallel, retrying step + dependent} x {step ends by itself, ends only on signal, ignores SIGTERM} + signalOnStop, repeating and always-failing-retry steps; stop through the /stop path (a.signal(SIGTERM,true)) and through a.Signal(SIGTERM) at every explored instant; PB(1) on 3 programs; DAG timeout 1 s with hanging steps; maxCleanUpTime 10 s (virtual)")
+		case "C10":
+			n := c10family(thorough, add)
+			res.Counters["recorded_tables"] = int64(n)
+			famDesc = append(famDesc, "programs on <=3 steps (4 thorough) x scripts {ok, fail, unmet} x every recorded status vector over {not started, running, failed, canceled, finished, skipped} that a finished, stopped or crashed run can leave (consistency filter), through the persisted JSON form; the retry runs with all steps succeeding")
+		default:
+			fmt.Fprintln(os.Stderr, "e1: unknown -sub", sub)
+			os.Exit(2)
 		}
-		famDesc = append(famDesc, "agent-level (real agent.Agent, Agent.Status() called at every scheduling decision and after the run): all programs on <=2 steps (3 thorough) x scripts x maxActiveRuns {0,1}, PB(0); PB(1) on the sharp list with the agent's channel arrangement")
-	case "C05":
-		c05family(thorough, add)
-		famDesc = append(famDesc, "agent-level: {single step, chain of 2, two parallel, retrying step + dependent} x {step ends by itself, ends only on signal, ignores SIGTERM} + signalOnStop, repeating and always-failing-retry steps; stop through the /stop path (a.signal(SIGTERM,true)) and through a.Signal(SIGTERM) at every explored instant; PB(1) on 3 programs; DAG timeout 1 s with hanging steps; maxCleanUpTime 10 s (virtual)")
-	case "C10":
-		n := c10family(thorough, add)
-		res.Counters["recorded_tables"] = int64(n)
-		famDesc = append(famDesc, "programs on <=3 steps (4 thorough) x scripts {ok, fail, unmet} x every recorded status vector over {not started, running, failed, canceled, finished, skipped} that a finished, stopped or crashed run can leave (consistency filter), through the persisted JSON form; the retry runs with all steps succeeding")
-	default:
-		fmt.Fprintln(os.Stderr, "e1: unknown -sub", sub)
-		os.Exit(2)
 	}
+	famDesc = dedupStrings(famDesc)
 
 	outcomes := map[string]struct{}{}
 	var raceSamples []string
@@ -408,6 +423,18 @@ func main() {
 	res.Assume("virtual time: computation is instantaneous relative to timers unless a preemption is spent")
 	res.Write(fl.Out)
 	os.RemoveAll(fl.Work)
+}
+
+func dedupStrings(in []string) []string {
+	seen := map[string]bool{}
+	var out []string
+	for _, x := range in {
+		if !seen[x] {
+			seen[x] = true
+			out = append(out, x)
+		}
+	}
+	return out
 }
 
 func seq(a, b int) []int {
